@@ -81,14 +81,44 @@ def _alarm(*a):
     raise Hang()
 
 
-def guarded(f, *a):
+def guarded(f, *a, limit=None):
+    """Run one case on the real code under a watchdog.  The budget is the CPU time of THIS process
+    (ITIMER_PROF), not wall-clock time, so machine load cannot make it fire; the first-stage limit is
+    max(5 s, 20 x the median case time of this run).  An expiry is never reported directly: the caller
+    re-runs the case alone under CONFIRM_LIMIT (confirm_hang) and reports a hang only if it reproduces."""
     import signal
-    signal.signal(signal.SIGALRM, _alarm)
-    signal.setitimer(signal.ITIMER_REAL, 5.0)
+    import time
+    if limit is None:
+        ts = _TIMES
+        med = sorted(ts)[len(ts) // 2] if len(ts) >= 50 else 0.0
+        limit = max(5.0, 20.0 * med)
+    signal.signal(signal.SIGPROF, _alarm)
+    t0 = time.process_time()
+    signal.setitimer(signal.ITIMER_PROF, limit)
     try:
         return f(*a)
     finally:
-        signal.setitimer(signal.ITIMER_REAL, 0)
+        signal.setitimer(signal.ITIMER_PROF, 0)
+        if len(_TIMES) < 5000:
+            _TIMES.append(time.process_time() - t0)
+
+
+_TIMES = []
+CONFIRM_LIMIT = 60.0      # CPU seconds of the re-run that must also expire before a hang is reported
+
+
+def confirm_hang(ctx, is_hang, f, *a):
+    """first-stage result -> final result: a watchdog expiry is re-run alone, fresh, under the generous
+    limit; only a reproduced expiry stays a hang"""
+    r = guarded(f, *a)
+    if not is_hang(r):
+        return r
+    ctx.count('stall-retried')
+    ctx.cov['stall_retried'] = ctx.cov.get('stall_retried', 0) + 1
+    r2 = guarded(f, *a, limit=CONFIRM_LIMIT)
+    if not is_hang(r2):
+        ctx.count('stall-not-reproduced')
+    return r2
 
 
 class Src:
@@ -773,7 +803,7 @@ def specialise(rng, base, asyn):
 
 def run_batch(ctx, mods, model, cases, asyn, tag):
     which = 'async' if asyn else 'sync'
-    impls = [guarded(run_form, mods, c, asyn) for c in cases]
+    impls = [confirm_hang(ctx, lambda r: r[1][0] == 'hang', run_form, mods, c, asyn) for c in cases]
     wires = []
     for c in cases:
         wires.append([0, cs_eff(c, asyn) if cs_eff(c, asyn) < 3000 else len(c['body']) + 100,
